@@ -235,7 +235,7 @@ func New(o Options) (*Net, error) {
 	// prime's init() already runs `go NewGenesisPendingHeader` when the chain is empty; it busy-waits
 	// until the sub interfaces are wired and then cascades down to the zone.
 	if n.Cores[Zone].CurrentHeader().NumberU64(Zone) == 0 {
-		if err := n.waitPending(5 * time.Second); err != nil {
+		if err := n.waitPending(20 * time.Second); err != nil {
 			return nil, err
 		}
 	}
@@ -253,12 +253,14 @@ func (n *Net) wire() {
 func (n *Net) waitPending(d time.Duration) error {
 	deadline := time.Now().Add(d)
 	for time.Now().Before(deadline) {
-		if n.Cores[Zone].Slice().ReadBestPh() != nil {
+		// the genesis pending header travels prime -> region -> zone asynchronously; every level needs one before
+		// GeneratePendingHeader can be asked for anything ("best ph is nil" otherwise)
+		if n.Cores[Zone].Slice().ReadBestPh() != nil && n.Cores[Region].Slice().ReadBestPh() != nil && n.Cores[Prime].Slice().ReadBestPh() != nil {
 			return nil
 		}
 		time.Sleep(2 * time.Millisecond)
 	}
-	return errors.New("zone never received a pending header")
+	return errors.New("not every level received the genesis pending header")
 }
 
 func (n *Net) Close() {
